@@ -432,7 +432,7 @@ fn explore_c13(ctx: &Ctx, name: &str, alpha: &[A13], len: usize, max_live: usize
             if t0.elapsed().as_secs_f64() > budget - 3.0 {
                 return None;
             }
-            let script = SockScript { cfgs: cfg_pair(max_live), events: concretize(s), rng_seed: *seed, latency_us: 10_000 };
+            let script = SockScript { cfgs: cfg_pair(max_live), events: concretize(s), rng_seed: *seed, latency_us: 10_000, plan: vec![] };
             let l = run(&script);
             let fs = judge_c13(&script, &l, max_live >= 32);
             Some((fs, l.trace_hash, l.arms.len()))
@@ -471,7 +471,7 @@ fn explore_c13(ctx: &Ctx, name: &str, alpha: &[A13], len: usize, max_live: usize
     }
     p.samples.push(json!(["SynFresh", "SynFresh", "Accept", "Accept"]));
     for (_, (f, s, seed)) in best {
-        let script = SockScript { cfgs: cfg_pair(max_live), events: concretize(&s), rng_seed: seed, latency_us: 10_000 };
+        let script = SockScript { cfgs: cfg_pair(max_live), events: concretize(&s), rng_seed: seed, latency_us: 10_000, plan: vec![] };
         for _ in 0..2 {
             let l = run(&script);
             if !judge_c13(&script, &l, max_live >= 32).iter().any(|g| g.signature == f.signature) {
@@ -516,8 +516,376 @@ pub fn c08_leaks(ctx: &Ctx) -> Outcome {
     out
 }
 
-pub fn hostile_socket(_ctx: &Ctx) -> Outcome {
-    Outcome::default()
+// ------------------------------------------------------------------------------------------------
+// C12: concurrent connections on one socket are isolated and bounded
+// ------------------------------------------------------------------------------------------------
+fn cfg_n(n: usize, max_live: usize, id_bases: &[u16]) -> Vec<SockCfg> {
+    (0..n)
+        .map(|i| {
+            let mut c = SockCfg::tiny(10);
+            let b = id_bases[i];
+            c.randoms = vec![b, 1000 + 1000 * i as u16, 1100 + 1000 * i as u16, 1200 + 1000 * i as u16, 1300 + 1000 * i as u16, 1400 + 1000 * i as u16, 1500 + 1000 * i as u16];
+            c.max_live = max_live;
+            c.max_retx = 4;
+            c.inactivity_ms = 3_000;
+            c
+        })
+        .collect()
+}
+
+fn judge_c12(script: &SockScript, l: &SockLog) -> Vec<SFinding> {
+    let mut v = vec![];
+    if let Some(p) = &l.panicked {
+        v.push(sf("C10", "panic", "panic/in-socket-run", p.clone()));
+        return v;
+    }
+    // the limit
+    for (i, m) in l.max_streams_seen.iter().enumerate() {
+        if *m > script.cfgs[i].max_live {
+            v.push(sf("C12", "limit", "limit/streams-table-exceeds-max-live-vsocks", format!("socket {i}: the connection table held {m} entries, max_live_vsocks is {}", script.cfgs[i].max_live)));
+        }
+    }
+    // every stream carries its own bytes
+    for (i, c) in l.connects.iter().enumerate() {
+        if let Done::Ok { payload_ok: false, .. } = c.done {
+            v.push(sf("C12", "isolation", "isolation/connector-read-foreign-bytes", format!("connect #{i}: the bytes read back are not the ones owed to this connection")));
+        }
+    }
+    for (i, a) in l.accepts.iter().enumerate() {
+        if let Done::Ok { payload_ok: false, .. } = a.done {
+            v.push(sf("C12", "isolation", "isolation/accepted-stream-carries-foreign-bytes", format!("accept #{i}: the stream delivered bytes that are not its connector's coded payload")));
+        }
+    }
+    // tokens: no two accepted streams carry the same token; every token belongs to a successful connect
+    let mut toks = BTreeSet::new();
+    for (i, a) in l.accepts.iter().enumerate() {
+        if let Done::Ok { token: Some(t), .. } = a.done {
+            if !toks.insert(t) {
+                v.push(sf("C12", "isolation", "isolation/two-streams-carry-the-same-connection", format!("accept #{i} carries token {t:#x}, which another accepted stream carries too")));
+            }
+        }
+    }
+    // connection ids in use between one ordered address pair are unique among connections that overlap in time:
+    // every non-SYN datagram from X to Y with id k belongs to the connection whose handshake announced k for that direction
+    {
+        // connections from handshakes: SYN (X->Y, id c) answered by STATE (Y->X, id c)
+        let mut conns: Vec<(SocketAddr, SocketAddr, u16, u64)> = vec![]; // (connector, acceptor, c, t)
+        for (i, w) in l.wire.iter().enumerate() {
+            if w.ptype == 4 && !w.injected && !w.rejected {
+                conns.push((l.wire_from[i], l.wire_to[i], w.conn_id, w.t_us));
+            }
+        }
+        // receive keys: at acceptor Y: (X, c+1); at connector X: (Y, c)
+        let mut keys: BTreeMap<(SocketAddr, SocketAddr, u16), Vec<usize>> = BTreeMap::new(); // (at, from, id) -> connection indices
+        for (ci, (x, y, c, _)) in conns.iter().enumerate() {
+            keys.entry((*y, *x, c.wrapping_add(1))).or_default().push(ci);
+            keys.entry((*x, *y, *c)).or_default().push(ci);
+        }
+        for ((at, from, id), cs) in &keys {
+            if cs.len() > 1 {
+                // a clash only matters if both connections really got going (both SYNs were answered or data flowed)
+                let live: Vec<&usize> = cs.iter().filter(|ci| {
+                    let (x, y, c, _) = conns[**ci];
+                    l.wire.iter().enumerate().any(|(i, w)| !w.injected && l.wire_from[i] == y && l.wire_to[i] == x && w.conn_id == c && w.ptype == 2)
+                }).collect();
+                if live.len() > 1 {
+                    v.push(sf(
+                        "C12",
+                        "id-uniqueness",
+                        "ids/receive-key-shared-by-two-connections",
+                        format!("socket {at} demultiplexes datagrams from {from} with connection id {id} to {} connections at once", live.len()),
+                    ));
+                }
+            }
+        }
+    }
+    // every connect whose peer had an acceptor and room under the limits must complete
+    let mut accepts_avail: BTreeMap<u8, usize> = BTreeMap::new();
+    for a in &l.accepts {
+        if !matches!(a.done, Done::Cancelled) {
+            *accepts_avail.entry(a.sock).or_insert(0) += 1;
+        }
+    }
+    let total_conn = l.connects.len();
+    let min_limit = script.cfgs.iter().map(|c| c.max_live).min().unwrap_or(128);
+    for (i, c) in l.connects.iter().enumerate() {
+        match &c.done {
+            Done::Err(e) => {
+                let limit_possible = total_conn > min_limit;
+                if !(limit_possible && (e.contains("too many") )) {
+                    v.push(sf("C12", "service", "connect/fails-under-concurrency", format!("connect #{i} to {:?} failed with '{e}' ({} connects in the run, smallest limit {})", c.target, total_conn, min_limit)));
+                }
+            }
+            Done::Pending => {
+                let target_sock = (0..script.cfgs.len() as u8).find(|s| Some(sock_addr(*s)) == c.target);
+                let acc = target_sock.and_then(|s| accepts_avail.get(&s).copied()).unwrap_or(0);
+                let completed_to_target = l.connects.iter().filter(|o| o.target == c.target && matches!(o.done, Done::Ok { .. })).count();
+                if total_conn <= min_limit && acc > completed_to_target {
+                    v.push(sf("C12", "service", "connect/never-completes-under-concurrency", format!("connect #{i} to {:?} is still pending at the end although its peer had a free accept call and no limit was reached", c.target)));
+                }
+            }
+            _ => {}
+        }
+    }
+    // leaks
+    let total_streams: usize = l.streams_at_end.iter().sum();
+    if total_streams > l.live_at_end {
+        v.push(sf("C08", "slot-release", "termination/streams-table-entry-without-connection", format!("{} live connection objects but tables hold {:?}", l.live_at_end, l.streams_at_end)));
+    }
+    v
+}
+
+pub fn c12(ctx: &Ctx) -> Outcome {
+    let mut out = Outcome::default();
+    // event alphabets over 2 and 3 sockets
+    let alpha2: Vec<Ev> = vec![Ev::Connect { from: 0, to: 1 }, Ev::Connect { from: 1, to: 0 }, Ev::Accept { sock: 0 }, Ev::Accept { sock: 1 }, Ev::CloseOldest, Ev::Settle];
+    let alpha3: Vec<Ev> = vec![Ev::Connect { from: 0, to: 1 }, Ev::Connect { from: 0, to: 2 }, Ev::Connect { from: 2, to: 1 }, Ev::Accept { sock: 1 }, Ev::Accept { sock: 2 }, Ev::Settle];
+    let len = ctx.tier.pick(5usize, 6usize);
+    let mut families: Vec<(String, Vec<SockCfg>, Vec<Ev>, usize)> = vec![];
+    for max_live in [1usize, 2, 3, 64] {
+        for (da, db) in [(0i32, 0i32), (1, 0), (0, 1), (2, 0), (0, 2)] {
+            if max_live != 64 && (da, db) != (0, 0) {
+                continue;
+            }
+            let bases = [(500 + da) as u16, (500 + db) as u16];
+            families.push((format!("sock:c12-pair-live{max_live}-ids{da}/{db}"), cfg_n(2, max_live, &bases), alpha2.clone(), len));
+        }
+    }
+    families.push(("sock:c12-triangle".into(), cfg_n(3, 64, &[500, 500, 501]), alpha3.clone(), len));
+    families.push(("sock:c12-triangle-live2".into(), cfg_n(3, 2, &[500, 502, 501]), alpha3.clone(), ctx.tier.pick(4, 5)));
+    for (name, cfgs, alpha, len) in families {
+        // all sequences; connects/accepts back to back (same instant) and separated variants
+        let mut seqs: Vec<Vec<usize>> = vec![vec![]];
+        let mut frontier: Vec<Vec<usize>> = vec![vec![]];
+        for _ in 0..len {
+            let mut next = vec![];
+            for s in &frontier {
+                for a in 0..alpha.len() {
+                    let mut n = s.clone();
+                    n.push(a);
+                    next.push(n);
+                }
+            }
+            seqs.extend(next.iter().cloned());
+            frontier = next;
+        }
+        let mut cases: Vec<(Vec<(Ev, bool)>, u64)> = vec![];
+        for s in &seqs {
+            if s.is_empty() {
+                continue;
+            }
+            cases.push((s.iter().map(|i| (alpha[*i].clone(), false)).collect(), 1));
+            if s.len() >= 2 && s.len() <= 4 {
+                // everything issued in one instant
+                cases.push((s.iter().enumerate().map(|(k, i)| (alpha[*i].clone(), k > 0)).collect(), 1));
+                cases.push((s.iter().enumerate().map(|(k, i)| (alpha[*i].clone(), k > 0)).collect(), 2));
+            }
+        }
+        let t0 = std::time::Instant::now();
+        let budget = ctx.budget_left();
+        let results: Vec<Option<(Vec<SFinding>, u64)>> = cases
+            .par_iter()
+            .map(|(ev, seed)| {
+                if t0.elapsed().as_secs_f64() > budget - 3.0 {
+                    return None;
+                }
+                let script = SockScript { cfgs: cfgs.clone(), events: ev.clone(), rng_seed: *seed, latency_us: 10_000, plan: vec![] };
+                let l = run(&script);
+                Some((judge_c12(&script, &l), l.trace_hash))
+            })
+            .collect();
+        let mut p = Part::fe(&name);
+        let mut seen = std::collections::HashSet::new();
+        let mut best: BTreeMap<String, (SFinding, Vec<(Ev, bool)>, u64)> = BTreeMap::new();
+        let mut skipped = 0;
+        for ((ev, seed), r) in cases.iter().zip(results) {
+            match r {
+                None => skipped += 1,
+                Some((fs, h)) => {
+                    p.evaluations += 1;
+                    if seen.insert(h) {
+                        p.distinct_nontrivial += 1;
+                    }
+                    for f in fs {
+                        let e = best.entry(format!("{}|{}", f.property, f.signature)).or_insert((f.clone(), ev.clone(), *seed));
+                        if ev.len() < e.1.len() {
+                            *e = (f, ev.clone(), *seed);
+                        }
+                    }
+                }
+            }
+        }
+        p.distinct_outcomes = p.distinct_nontrivial.min(1000);
+        p.bound = format!("all sequences of <= {len} events over {} socket events ({} sockets), issued separately and (length 2..4) all in one instant under 2 select! seeds", alpha.len(), cfgs.len());
+        if skipped > 0 {
+            p.caps_hit.push(format!("time budget: {skipped} cases not executed"));
+            p.exhaustive = false;
+        }
+        p.samples.push(json!(["Connect 0->1", "Connect 1->0", "Accept 0", "Accept 1"]));
+        for (_, (f, ev, seed)) in best {
+            let script = SockScript { cfgs: cfgs.clone(), events: ev.clone(), rng_seed: seed, latency_us: 10_000, plan: vec![] };
+            for _ in 0..2 {
+                let l = run(&script);
+                if !judge_c12(&script, &l).iter().any(|g| g.signature == f.signature) {
+                    machinery_error(&format!("C12 finding {} did not reproduce", f.signature));
+                }
+            }
+            out.violations.push(Violation {
+                property: f.property.to_string(),
+                monitor: f.monitor.to_string(),
+                signature: f.signature.clone(),
+                detail: format!("[{} events {:?} seed {seed}] {}", name, ev, f.detail),
+                replay: replay_json(&script, "c12"),
+            });
+        }
+        out.parts.push(p);
+    }
+    // fault interleavings: two connections in both directions, every single deviation
+    {
+        let cfgs = cfg_n(2, 64, &[500, 501]);
+        let events = vec![(Ev::Accept { sock: 0 }, false), (Ev::Accept { sock: 1 }, true), (Ev::Connect { from: 0, to: 1 }, true), (Ev::Connect { from: 1, to: 0 }, true), (Ev::Connect { from: 0, to: 1 }, false), (Ev::Accept { sock: 1 }, true), (Ev::Settle, false), (Ev::Settle, false)];
+        let base = SockScript { cfgs: cfgs.clone(), events: events.clone(), rng_seed: 1, latency_us: 10_000, plan: vec![] };
+        let l0 = run(&base);
+        let n = l0.wire.iter().filter(|w| w.k != usize::MAX).count();
+        let mut plans: Vec<Vec<(usize, crate::duo::sim::Fate)>> = vec![vec![]];
+        for k in 0..n {
+            // a lost SYN is never retransmitted: not a fault the property is about
+            if l0.wire.iter().any(|w| w.k == k && w.ptype == 4) {
+                continue;
+            }
+            for fate in [crate::duo::sim::Fate::Drop, crate::duo::sim::Fate::Dup, crate::duo::sim::Fate::Delay(15_000)] {
+                plans.push(vec![(k, fate)]);
+            }
+        }
+        let results: Vec<(Vec<SFinding>, u64)> = plans
+            .par_iter()
+            .map(|pl| {
+                let mut s = base.clone();
+                s.plan = pl.clone();
+                let l = run(&s);
+                (judge_c12(&s, &l), l.trace_hash)
+            })
+            .collect();
+        let mut p = Part::fe("sock:c12-interleaved-faults");
+        let mut seen = std::collections::HashSet::new();
+        for (pl, (fs, h)) in plans.iter().zip(results) {
+            p.evaluations += 1;
+            if seen.insert(h) {
+                p.distinct_nontrivial += 1;
+            }
+            for f in fs {
+                if !out.violations.iter().any(|v| v.signature == f.signature) {
+                    let mut s = base.clone();
+                    s.plan = pl.clone();
+                    out.violations.push(Violation { property: f.property.to_string(), monitor: f.monitor.to_string(), signature: f.signature.clone(), detail: format!("[interleaved-faults plan {:?}] {}", pl, f.detail), replay: replay_json(&s, "c12") });
+                }
+            }
+        }
+        p.distinct_outcomes = p.distinct_nontrivial;
+        p.bound = format!("three connections (two A->B, one B->A) opened in one instant, every single drop/dup/delay of each of the {n} datagrams");
+        p.samples.push(json!({"plan": [[7, "Drop"]]}));
+        out.parts.push(p);
+    }
+    out.rule = "C12: every sequence of connect/accept/close events up to the stated length over 2 and 3 sockets, for connection limits 1, 2, 3, 64 and adjacent / equal first connection ids on the two sides; per-stream position-coded payloads in both directions; single-fault interleavings".into();
+    out.assumptions.push("a lost SYN is never retransmitted by the library, so SYNs are exempt from the fault plans".into());
+    out
+}
+
+/// C10 at the socket: stray / hostile datagrams from unknown addresses, with unknown connection ids,
+/// or aimed at a live connection from the wrong address must not change what the connections do.
+pub fn hostile_socket(ctx: &Ctx) -> Outcome {
+    let mut out = Outcome::default();
+    let cfgs = cfg_n(2, 64, &[500, 700]);
+    // base conversation: two connections A->B, then one more connect+accept afterwards
+    let base_events = |stray: Option<(usize, Ev)>| -> Vec<(Ev, bool)> {
+        let mut ev = vec![
+            (Ev::Accept { sock: 1 }, false),
+            (Ev::Accept { sock: 1 }, true),
+            (Ev::Connect { from: 0, to: 1 }, true),
+            (Ev::Connect { from: 0, to: 1 }, false),
+            (Ev::Settle, false),
+            (Ev::Accept { sock: 1 }, false),
+            (Ev::Connect { from: 0, to: 1 }, true),
+            (Ev::Settle, false),
+        ];
+        if let Some((pos, e)) = stray {
+            ev.insert(pos, (e, false));
+        }
+        ev
+    };
+    let base = SockScript { cfgs: cfgs.clone(), events: base_events(None), rng_seed: 1, latency_us: 10_000, plan: vec![] };
+    let l0 = run(&base);
+    let sig0: Vec<(u64, SocketAddr, SocketAddr, u8, u16, u16, u16, usize)> = l0.wire.iter().enumerate().filter(|(_, w)| !w.injected).map(|(i, w)| (w.t_us, l0.wire_from[i], l0.wire_to[i], w.ptype, w.conn_id, w.seq, w.ack, w.len)).collect();
+    let mut cases = vec![];
+    for pos in 1..base.events.len() {
+        for to in [0u8, 1] {
+            for kind in 0u8..4 {
+                cases.push((pos, Ev::Stray { to, kind }));
+            }
+        }
+    }
+    let results: Vec<(usize, Ev, SockLog)> = cases
+        .par_iter()
+        .map(|(pos, e)| {
+            let s = SockScript { cfgs: cfgs.clone(), events: base_events(Some((*pos, e.clone()))), rng_seed: 1, latency_us: 10_000, plan: vec![] };
+            (*pos, e.clone(), run(&s))
+        })
+        .collect();
+    let mut p = Part::mc("sock:hostile-socket");
+    let mut seen = std::collections::HashSet::new();
+    for (pos, e, l) in results {
+        p.transitions += 1;
+        seen.insert(l.trace_hash);
+        if let Some(pm) = &l.panicked {
+            out.violations.push(Violation { property: "C10".into(), monitor: "panic".into(), signature: "panic/in-socket-run".into(), detail: pm.clone(), replay: json!({}) });
+            continue;
+        }
+        // stray kinds 0..2 come from addresses / ids that belong to no connection: traces must be identical
+        let is_foreign = matches!(e, Ev::Stray { kind: 0..=2, .. });
+        let mut sig: Vec<(u64, SocketAddr, SocketAddr, u8, u16, u16, u16, usize)> = l.wire.iter().enumerate().filter(|(_, w)| !w.injected).map(|(i, w)| (w.t_us, l.wire_from[i], l.wire_to[i], w.ptype, w.conn_id, w.seq, w.ack, w.len)).collect();
+        // the stray event itself shifts later events by one 1 ms slot: compare shapes without absolute time
+        let strip = |v: &Vec<(u64, SocketAddr, SocketAddr, u8, u16, u16, u16, usize)>| v.iter().map(|x| (x.1, x.2, x.3, x.4, x.5, x.6, x.7)).collect::<Vec<_>>();
+        let ok_connects = l.connects.iter().filter(|c| matches!(c.done, Done::Ok { payload_ok: true, .. })).count();
+        let ok_accepts = l.accepts.iter().filter(|c| matches!(c.done, Done::Ok { payload_ok: true, token: Some(_), .. })).count();
+        if is_foreign {
+            sig.retain(|x| x.3 != 3 || true);
+            if strip(&sig) != strip(&sig0) {
+                let s = SockScript { cfgs: cfgs.clone(), events: base_events(Some((pos, e.clone()))), rng_seed: 1, latency_us: 10_000, plan: vec![] };
+                if !out.violations.iter().any(|v| v.signature == "contamination/foreign-datagram-changes-conversation") {
+                    out.violations.push(Violation {
+                        property: "C10".into(),
+                        monitor: "cross-contamination".into(),
+                        signature: "contamination/foreign-datagram-changes-conversation".into(),
+                        detail: format!("a stray datagram ({e:?} before event {pos}) from an address / connection id that belongs to no connection changed the datagrams the sockets exchange ({} vs {} datagrams)", sig.len(), sig0.len()),
+                        replay: replay_json(&s, "hostile"),
+                    });
+                }
+            }
+        }
+        if ok_connects < 3 || ok_accepts < 3 {
+            // kind 3 may break the one connection it is aimed at - but only that one, and later service works
+            let tolerated = matches!(e, Ev::Stray { kind: 3, .. }) && ok_connects >= 2 && ok_accepts >= 2;
+            if !tolerated {
+                let s = SockScript { cfgs: cfgs.clone(), events: base_events(Some((pos, e.clone()))), rng_seed: 1, latency_us: 10_000, plan: vec![] };
+                if !out.violations.iter().any(|v| v.signature == "contamination/hostile-datagram-breaks-other-connections") {
+                    out.violations.push(Violation {
+                        property: "C10".into(),
+                        monitor: "cross-contamination".into(),
+                        signature: "contamination/hostile-datagram-breaks-other-connections".into(),
+                        detail: format!("after {e:?} before event {pos} only {ok_connects} connects and {ok_accepts} accepts completed with intact payloads (3 and 3 without it)"),
+                        replay: replay_json(&s, "hostile"),
+                    });
+                }
+            }
+        }
+    }
+    p.states = seen.len() as u64;
+    p.distinct_outcomes = seen.len() as u64;
+    p.bound = "3 connections on one socket pair; 4 kinds of stray / hostile datagram to either socket at every position of the event script; differential against the run without it".into();
+    p.samples.push(json!({"stray": "RESET with a live connection's id from a foreign address", "position": 4}));
+    let _ = ctx;
+    out.parts.push(p);
+    out
 }
 
 pub fn replay(v: &Value) -> i32 {
